@@ -42,7 +42,12 @@ MANIFEST = {
             "TRANSLATED: HostARP / RouterARP _get_arp_cache_mac_address and _get_arp_cache_network_interface, ARP.add_arp_cache_entry, "
             "ARP.send_arp_request and the request / reply handlers are turned statement by statement into Lean functions "
             "(Gen/ForwardArp.lean) and one activation of the model's arpMac / arpIfc / addArp / sendArpReq is proved to BE the "
-            "translated method for every state, node, address, flag pair and fuel (C08_gen_arp_*). Float metrics: on "
+            "translated method for every state, node, address, flag pair and fuel (C08_gen_arp_*). WHO A NODE SENDS TO is translated too: "
+            "SessionManager / RouterSessionManager resolve_outbound_transmission_details (unicast branch) and "
+            "resolve_outbound_network_interface become programs over the stateful ARP look-ups (order kept) and the model's "
+            "resolveDetails / resolveOut are proved to compute exactly what these programs compute for every route table, ARP cache, "
+            "destination and fuel (C08_gen_session_resolve_*); a concrete router shows an ARP-first resolution choosing another next "
+            "hop (C08_session_resolve_countermodel). Float metrics: on "
             "A switch re-points a MAC to the port it was last seen on, whatever its table held (learning is unconditional and precedes "
             "the table read); R-net re-cables hosts at run time. On finite metrics the float loop is the integer loop; for every table the selected entry has no strictly cheaper rival of its "
             "prefix, and for every nan-free (= constructible: RouteEntry refuses NaN) table it is the minimum in -inf <= finite <= inf. Tie: constants, comparison "
